@@ -95,7 +95,12 @@ func c09Remote(t *testing.T, out *vh.Out, op string) {
 	utf8 := toks[2] == "1"
 	txs := c09Parse(toks[3])
 
+	smtpPort = vsmtp.FreePort()
 	srv, err := vsmtp.Start("127.0.0.1:"+smtpPort, utf8, false)
+	if err != nil {
+		smtpPort = vsmtp.FreePort()
+		srv, err = vsmtp.Start("127.0.0.1:"+smtpPort, utf8, false)
+	}
 	if err != nil {
 		t.Fatal(err)
 	}
